@@ -219,13 +219,18 @@ def run_cold(pid, tier, seed, wd, all_tr, jobs_by_tag):
         tag = "cold%d" % i
         base = {"fixtures": cp["fixtures"], "nowarm": cp["nowarm"], "prefix": cp["prefix"], "programs": [cp["program"]],
                 "probe": [], "hang_ms": 20000, "tag": tag, "max_log": 0}
-        stack, n, texts, bad = [], 0, [], None
+        stack, n, texts, bad, retries = [], 0, [], None, 0
         while n < max_s:
             job = dict(base, strategy={"kind": "dfs1", "stack": stack, "preempt": 3 if thorough else 2})
             jp = os.path.join(cdir, "job_%d.json" % i)
             tp = os.path.join(cdir, "tr_%d.ndjson" % i)
             json.dump(job, open(jp, "w"))
             r = harness_json(["conc", "--job", jp, "--out", tp], timeout=300)
+            if r.get("retry"):
+                retries += 1
+                if retries > 50:
+                    raise ToolError("cold-start schedule keeps straddling wall-clock seconds")
+                continue
             n += 1
             texts.append(open(tp).read())
             if r["verdict"] != "ok":
@@ -413,6 +418,56 @@ def lock_protocol_conformance(pid, tier, wd, all_tr, drift):
             if r2["ok"] or not any(inv in e for e in r2["errors"]):
                 raise ToolError("self-test: Conc.tla with quirk %s does not violate %s" % (q, inv))
             refuted.append(q)
+    # registry lock protocol (Reg.tla): parking_lot semantics with writer preference; first calls (their
+    # registrations) race with group / conditional invalidations and statistics queries
+    rcfg = os.path.join(wd, "RegMC.cfg")
+    rconst = {"Caches": {"c1", "c2"}, "NThreads": 3 if thorough else 2, "MaxOps": 2, "Cold": {"c2"},
+              "MetaCaches": {"c1", "c2"}, "RQuirks": set()}
+    if thorough:
+        rconst["MaxOps"] = 1
+    write_cfg(rcfg, "Spec", rconst, invariants=["NoDeadlock", "QuiescentClean", "FlatRegistry"])
+    rr = tlc_mc("RegMC", rcfg, pid + "_regmc", workers=12, timeout=3000)
+    if not rr["ok"]:
+        raise ToolError("TLC did not prove NoDeadlock / QuiescentClean / FlatRegistry on Reg.tla:\n" +
+                        ("\n".join(rr["errors"][:4]) or rr["out"][-2000:]))
+    if thorough:
+        rc2 = dict(rconst, NThreads=2, MaxOps=2, Cold={"c1", "c2"}, MetaCaches={"c1"})
+        write_cfg(rcfg, "Spec", rc2, invariants=["NoDeadlock", "QuiescentClean", "FlatRegistry"])
+        rr2 = tlc_mc("RegMC", rcfg, pid + "_regmc2", workers=12, timeout=3000)
+        if not rr2["ok"]:
+            raise ToolError("TLC did not prove the Reg.tla invariants (two cold caches):\n" +
+                            ("\n".join(rr2["errors"][:4]) or rr2["out"][-2000:]))
+        rr["distinct"] += rr2["distinct"]
+        rr["generated"] += rr2["generated"]
+    qcfg = os.path.join(wd, "RegMC_q.cfg")
+    write_cfg(qcfg, "Spec", dict(rconst, NThreads=2, MaxOps=2, RQuirks={"allwith_recursive_read"}), invariants=["NoDeadlock"])
+    rq = tlc_mc("RegMC", qcfg, pid + "_regmc_q", workers=12, timeout=1200)
+    if rq["ok"] or not any("NoDeadlock" in e for e in rq["errors"]):
+        raise ToolError("self-test: Reg.tla with a recursive read in invalidate_all_with does not violate NoDeadlock")
+    refuted.append("allwith_recursive_read")
+    log("[%s] TLC proved NoDeadlock, QuiescentClean, FlatRegistry on Reg.tla (registry locks, writer preference): "
+        "%d states; a recursive read is refuted" % (pid, rr["distinct"]))
+    r["distinct"] += rr["distinct"]
+    r["generated"] += rr["generated"]
+    # ... and the recorded schedules follow that protocol: per thread, the registry locks acquired by the
+    # real run are exactly the ones Reg.tla prescribes for its program, each taken holding no other one
+    rsel = os.path.join(wd, "reg_conf.ndjson")
+    nreg = 0
+    with open(all_tr) as f, open(rsel, "w") as g:
+        for line in f:
+            if '"ev":"quiesce"' in line and '"reg.' in line:
+                g.write(line)
+                nreg += 1
+    rtcfg = os.path.join(wd, "RegTrace.cfg")
+    write_cfg(rtcfg, "RSpec", {}, invariants=["Done"])
+    rtv = validate_file("RegTrace", rtcfg, rsel, pid + "_regtrace", nshards=14, boundary=None, timeout=3000)
+    if rtv["errors"]:
+        raise ToolError("registry-protocol conformance incomplete: " + "; ".join(rtv["errors"][:3]))
+    nrd = len(rtv["drifts"])
+    if nrd:
+        drift.append("SPEC-DRIFT %d of %d recorded schedules acquire registry locks differently from Reg.tla (first line %d)"
+                     % (nrd, nreg, rtv["drifts"][0][1]))
+    log("[%s] registry-protocol conformance: %d recorded schedules checked against Reg.tla, %d deviate" % (pid, nreg, nrd))
     # conformance of recorded schedules
     sel = os.path.join(wd, "conc_conf.ndjson")
     n = 0
@@ -453,4 +508,6 @@ def lock_protocol_conformance(pid, tier, wd, all_tr, drift):
     log("[%s] lock-protocol conformance: %d recorded schedules replayed grant by grant in Conc.tla, %d deviate" % (pid, n, nd))
     return {"mc": {"states": r["distinct"], "transitions": r["generated"], "constants": {k: sorted(v) if isinstance(v, set) else v for k, v in consts.items()},
                    "quirks_refuted": refuted},
-            "schedules_replayed": n, "deviating": nd, "shard_preempted_schedules_not_replayed": nfine}
+            "schedules_replayed": n, "deviating": nd, "shard_preempted_schedules_not_replayed": nfine,
+            "registry_protocol": {"states": rr["distinct"], "constants": {k: sorted(v) if isinstance(v, set) else v for k, v in rconst.items()},
+                                  "schedules_checked": nreg, "deviating": nrd}}
